@@ -1,11 +1,98 @@
 (* Tie lemmas: the definitions generated from /repo's source by tools/py2gallina.py
-   (Gen/Fn_helpers.v) are equal to the hand-written models the theorems are about. *)
+   (Gen/Fn_helpers.v, regenerated on every run) are equal to the hand-written models the
+   theorems are about.
+
+   The proofs do not mention sub-terms of the generated definitions.  Each goes
+     1. unfold the generated function, find its loop ([fold_left] / [py_forb] / [py_for] applied to a
+        generated step function) and replace the step function by a *reference step* written here,
+        using the extensionality lemma of the combinator; the obligation
+        [forall s x, generated_step s x = reference_step s x] is discharged by [tie_crush]: case
+        analysis on every test both functions make + computation — so any formulation of the loop
+        body that makes the same decisions (branches in another order, early [continue], [elif],
+        conditional expressions, pop under an emptiness test instead of a suppressed IndexError,
+        other local names ...) goes through;
+     2. a lemma about the reference loop (proved once, by induction) relates it to the model;
+     3. what the function does before and after the loop is closed by computation / [lia].
+   Where the source may use genuinely different algorithms (relpath_pure), one proof per family is
+   tried ([first]); a source outside every family fails closed. *)
 From Coq Require Import ZArith NArith List Bool Lia.
 Import ListNotations.
-From V Require Import Model.Val Model.Paths Model.PyPrims Model.LinkRe Proofs.PathsP Gen.Fn_helpers.
+From V Require Import Model.Val Model.Paths Model.PyPrims Model.LinkRe Model.Links Proofs.PathsP Gen.Fn_helpers.
+Local Open Scope nat_scope.
 
+(* ------------------------------------------------------------------ loop combinators *)
+Lemma fold_left_ext {A B} (f g : A -> B -> A) l :
+  (forall a b, f a b = g a b) -> forall i, fold_left f l i = fold_left g l i.
+Proof. intros H. induction l as [|x l IH]; intros i; cbn; [reflexivity|]. now rewrite H, IH. Qed.
+
+Lemma py_forb_ext {S X} (f g : S -> X -> S * bool) l :
+  (forall s x, f s x = g s x) -> forall i, py_forb f l i = py_forb g l i.
+Proof.
+  intros H. induction l as [|x l IH]; intros i; cbn [py_forb]; [reflexivity|].
+  rewrite H. destruct (g i x) as [s' [|]]; [reflexivity|apply IH].
+Qed.
+
+Lemma py_for_ext {S X} (f g : S -> X -> ctl S) l :
+  (forall s x, f s x = g s x) -> forall i, py_for f l i = py_for g l i.
+Proof.
+  intros H. induction l as [|x l IH]; intros i; cbn [py_for]; [reflexivity|].
+  rewrite H. destruct (g i x); [apply IH|reflexivity|reflexivity].
+Qed.
+
+(* ------------------------------------------------------------------ step functions by case analysis *)
+(* other spellings of "drop the last element" / "add one element" *)
+Lemma slice_to_m1 {A} (l : list A) : py_slice_to l (-1)%Z = removelast l.
+Proof.
+  unfold py_slice_to, py_index. cbn [Z.ltb Z.compare].
+  replace (Z.to_nat (Z.of_nat (length l) + -1)) with (length l - 1) by lia.
+  induction l as [|x [|y l] IH]; [reflexivity|reflexivity|].
+  replace (length (x :: y :: l) - 1) with (S (length (y :: l) - 1)) by (cbn [length]; lia).
+  cbn [firstn]. rewrite IH. reflexivity.
+Qed.
+Lemma slice_m1 {A} (l : list A) : py_slice l 0%Z (-1)%Z = removelast l.
+Proof. unfold py_slice. change (py_index l 0) with 0. cbn [skipn]. exact (slice_to_m1 l). Qed.
+
+Ltac tie_red :=
+  cbv beta iota zeta delta [negb andb orb py_nonempty fst snd dotdot dot DOT SLASH HASH SPACE];
+  rewrite ?slice_to_m1, ?slice_m1, ?app_nil_r, <- ?app_assoc, ?Z.gtb_ltb, ?Z.geb_leb;
+  cbn [str_eqb app length].
+(* one case split: on a variable that is taken apart or tested for emptiness, else on the innermost test *)
+Ltac tie_case :=
+  match goal with
+  | p : (_ * _)%type |- _ => destruct p
+  | |- context [str_eqb ?l []] => is_var l; destruct l
+  | |- context [length ?l] => is_var l; destruct l
+  | |- context [Z.ltb ?a ?b] => destruct (Z.ltb_spec a b)
+  | |- context [Z.leb ?a ?b] => destruct (Z.leb_spec a b)
+  | |- context [Z.eqb ?a ?b] => destruct (Z.eqb_spec a b)
+  | |- context [match ?x with _ => _ end] =>
+      lazymatch x with
+      | context [match _ with _ => _ end] => fail
+      | _ => first [ is_var x; destruct x | let E := fresh "E" in destruct x eqn:E ]
+      end
+  end.
+Ltac tie_crush :=
+  intros; tie_red; repeat (tie_case; tie_red);
+  try reflexivity; try congruence; try (exfalso; cbn [length] in *; lia).
+
+(* replace the generated step function of the loop in the goal by the reference step [g] *)
+Ltac tie_fold g :=
+  match goal with |- context [fold_left ?f ?l ?i] =>
+    rewrite (fold_left_ext f g l) by (unfold g; tie_crush) end.
+Ltac tie_forb g :=
+  match goal with |- context [py_forb ?f ?l ?i] =>
+    rewrite (py_forb_ext f g l) by (unfold g; tie_crush) end.
+Ltac tie_for g :=
+  match goal with |- context [py_for ?f ?l ?i] =>
+    rewrite (py_for_ext f g l) by (unfold g; tie_crush) end.
+
+(* ------------------------------------------------------------------ normalize_pure_path *)
+(* reference step: Paths.nstep itself *)
 Lemma tie_normalize p b : normalize_pure_path p b = py_of_parts (normalize p b).
-Proof. reflexivity. Qed.
+Proof.
+  unfold normalize_pure_path. cbv zeta.
+  tie_fold nstep. reflexivity.
+Qed.
 
 (* py_of_parts of a list of genuine segments is the relative path with these parts *)
 Lemma py_of_parts_rel l : Forall (fun p => ~ In SLASH p) l -> py_of_parts l = {| pp_abs := false; pp_parts := l |}.
@@ -15,12 +102,14 @@ Proof.
   inversion H; subst. exfalso. apply H2. now left.
 Qed.
 
-(* relpath: generated (reversed list, pop/append at the end) vs model (forward list) *)
-Definition gen_rstep (st : list str * bool) (v_part : str) : list str * bool :=
-  let '(v_parts, v_prefix) := st in
-  if v_prefix then
-    if (py_nonempty v_parts && str_eqb (py_last v_parts) v_part)%bool then (removelast v_parts, v_prefix) else (v_parts, false)
-  else (v_parts ++ [dotdot], v_prefix).
+(* ------------------------------------------------------------------ relpath_pure *)
+(* family A: a reversed copy of path.parts from which the shared leading components are popped while a
+   flag is up, and to which one ".." is appended for every later component of start *)
+Definition ref_rstep (st : bool * list str) (p : str) : bool * list str :=
+  let '(prefix, parts) := st in
+  if prefix then
+    if (py_nonempty parts && str_eqb (py_last parts) p)%bool then (prefix, removelast parts) else (false, parts)
+  else (prefix, parts ++ [dotdot]).
 
 Lemma nonempty_snoc {A} (l : list A) x : py_nonempty (l ++ [x]) = true.
 Proof. destruct l; reflexivity. Qed.
@@ -28,9 +117,9 @@ Proof. destruct l; reflexivity. Qed.
 Lemma rstep_sim rest prefix ups p :
   (prefix = true -> ups = []) ->
   let '(rest', prefix', ups') := rstep (rest, prefix, ups) p in
-  gen_rstep (rev rest ++ rev ups, prefix) p = (rev rest' ++ rev ups', prefix') /\ (prefix' = true -> ups' = []).
+  ref_rstep (prefix, rev rest ++ rev ups) p = (prefix', rev rest' ++ rev ups') /\ (prefix' = true -> ups' = []).
 Proof.
-  intros Hinv. unfold rstep, gen_rstep. destruct prefix.
+  intros Hinv. unfold rstep, ref_rstep. destruct prefix.
   - rewrite (Hinv eq_refl). cbn [rev app]. rewrite !app_nil_r.
     destruct rest as [|x rest'].
     + cbn. split; [reflexivity|auto].
@@ -44,7 +133,7 @@ Qed.
 Lemma rfold_sim start : forall rest prefix ups,
   (prefix = true -> ups = []) ->
   let '(rest', prefix', ups') := fold_left rstep start (rest, prefix, ups) in
-  fold_left gen_rstep start (rev rest ++ rev ups, prefix) = (rev rest' ++ rev ups', prefix').
+  fold_left ref_rstep start (prefix, rev rest ++ rev ups) = (prefix', rev rest' ++ rev ups').
 Proof.
   induction start as [|p start IH]; intros rest prefix ups Hinv; cbn [fold_left].
   - reflexivity.
@@ -53,64 +142,126 @@ Proof.
     destruct H as [H1 H2]. rewrite H1. apply IH. exact H2.
 Qed.
 
-Lemma fold_left_ext {A B} (f g : A -> B -> A) l :
-  (forall a b, f a b = g a b) -> forall i, fold_left f l i = fold_left g l i.
-Proof. intros H. induction l as [|x l IH]; intros i; cbn; [reflexivity|]. now rewrite H, IH. Qed.
-
-Lemma relpath_pure_unfold path start :
-  relpath_pure path start =
-  py_of_parts (rev (fst (fold_left gen_rstep (py_parts start) (rev (py_parts path), true)))).
+Lemma relpath_pop_loop path start :
+  rev (snd (fold_left ref_rstep start (true, rev path))) = relpath path start.
 Proof.
-  unfold relpath_pure.
-  match goal with |- context [fold_left ?f ?l ?i] => rewrite (fold_left_ext f gen_rstep l) end.
-  - destruct (fold_left gen_rstep _ _) as [a b]. reflexivity.
-  - intros [a b] x. unfold gen_rstep. destruct b; [destruct (_ && _)%bool|]; reflexivity.
+  unfold relpath.
+  pose proof (rfold_sim start path true [] (fun _ => eq_refl)) as H.
+  destruct (fold_left rstep _ _) as [[rest' prefix'] ups'].
+  cbn [rev] in H. rewrite app_nil_r in H. rewrite H. cbn [snd].
+  now rewrite rev_app_distr, !rev_involutive.
+Qed.
+
+(* family B: count the shared leading components (loop over zip with break), then
+   [".."] * (len(start) - common - 1, at least 0) followed by path.parts[common:] *)
+Fixpoint lcp (a b : list str) : nat :=
+  match a, b with
+  | x :: a', y :: b' => if str_eqb x y then S (lcp a' b') else 0
+  | _, _ => 0
+  end.
+Definition ref_cstep (c : Z) (ab : str * str) : Z * bool :=
+  if str_eqb (fst ab) (snd ab) then ((c + 1)%Z, false) else (c, true).
+
+Lemma forb_count p : forall s c, py_forb ref_cstep (combine p s) c = (c + Z.of_nat (lcp p s))%Z.
+Proof.
+  induction p as [|x p IH]; intros [|y s] c; cbn [combine py_forb lcp]; try lia.
+  unfold ref_cstep at 1. cbn [fst snd]. destruct (str_eqb x y).
+  - rewrite IH. lia.
+  - lia.
+Qed.
+
+Lemma rfold_ups start : forall rest ups,
+  fold_left rstep start (rest, false, ups) = (rest, false, repeat dotdot (length start) ++ ups).
+Proof.
+  induction start as [|p start IH]; intros rest ups; cbn [fold_left length repeat app]; [reflexivity|].
+  unfold rstep at 2. rewrite IH. f_equal.
+  change (dotdot :: ups) with ([dotdot] ++ ups). rewrite app_assoc. f_equal.
+  clear. induction (length start) as [|n IHn]; cbn; [reflexivity|]. now rewrite IHn.
+Qed.
+
+Lemma relpath_spec : forall s p,
+  relpath p s = repeat dotdot (length s - lcp p s - 1) ++ skipn (lcp p s) p.
+Proof.
+  unfold relpath.
+  induction s as [|y s IH]; intros p.
+  - destruct p; reflexivity.
+  - cbn [fold_left]. unfold rstep at 2.
+    destruct p as [|x p].
+    + rewrite rfold_ups. cbn [lcp length skipn]. rewrite app_nil_r.
+      replace (S (length s) - 0 - 1) with (length s) by lia. reflexivity.
+    + destruct (str_eqb x y) eqn:E.
+      * specialize (IH p). cbn [lcp length skipn]. rewrite E.
+        destruct (fold_left rstep s (p, true, [])) as [[r f] u]. exact IH.
+      * rewrite rfold_ups. cbn [lcp length skipn]. rewrite E, app_nil_r.
+        replace (S (length s) - 0 - 1) with (length s) by lia. reflexivity.
+Qed.
+
+Lemma list_mul_single {A} (x : A) z : py_list_mul [x] z = repeat x (Z.to_nat z).
+Proof.
+  unfold py_list_mul. induction (Z.to_nat z) as [|n IH]; cbn; [reflexivity|]. now rewrite IH.
+Qed.
+Lemma slice_from_nat {A} (l : list A) z n : z = Z.of_nat n -> py_slice_from l z = skipn n l.
+Proof.
+  intros ->. unfold py_slice_from, py_index.
+  destruct (Z.ltb_spec (Z.of_nat n) 0); [lia|]. now rewrite Nat2Z.id.
 Qed.
 
 Lemma tie_relpath path start :
   relpath_pure path start = py_of_parts (relpath (py_parts path) (py_parts start)).
 Proof.
-  rewrite relpath_pure_unfold. unfold relpath.
-  pose proof (rfold_sim (py_parts start) (py_parts path) true [] (fun _ => eq_refl)) as H.
-  destruct (fold_left rstep _ _) as [[rest' prefix'] ups'].
-  cbv beta iota zeta in H. cbn [rev] in H. rewrite app_nil_r in H. rewrite H. cbn [fst].
-  now rewrite rev_app_distr, !rev_involutive.
+  unfold relpath_pure. cbv zeta.
+  first
+  [ (* A *)
+    tie_fold ref_rstep;
+    rewrite <- relpath_pop_loop;
+    destruct (fold_left ref_rstep _ _) as [a b]; reflexivity
+  | (* B *)
+    tie_forb ref_cstep;
+    rewrite forb_count, relpath_spec, list_mul_single;
+    f_equal; f_equal; [ f_equal; lia | apply slice_from_nat; lia ] ].
 Qed.
 
-(* ---- split_links: generated monadic fold = recursive token model ---- *)
-From V Require Import Model.Links.
+(* ------------------------------------------------------------------ split_links *)
+(* reference step: state = (links yielded so far, pending type prefix or "") *)
 Definition pend (nx : str) : option str := match nx with [] => None | _ => Some nx end.
+Definition ref_sstep (st : list str * str) (t : str) : ctl (list str * str) :=
+  if py_str_contains t [HASH] then
+    if py_link_fullmatch (if str_eqb (snd st) [] then t else snd st ++ [SPACE] ++ t)
+    then Next (fst st ++ [if str_eqb (snd st) [] then t else snd st ++ [SPACE] ++ t], [])
+    else Raise E_ValueError
+  else if str_eqb (snd st) [] then Next (fst st, t) else Raise E_ValueError.
+Definition ref_sfinish (r : result (list str * str)) : result (list str) :=
+  match r with
+  | Ok st => if str_eqb (snd st) [] then Ok (fst st) else Err E_ValueError
+  | Err e => Err e
+  end.
+
+Lemma ref_sloop toks : forall out nx,
+  ref_sfinish (py_for ref_sstep toks (out, nx)) =
+  match split_tokens toks (pend nx) with Ok l => Ok (out ++ l) | Err e => Err e end.
+Proof.
+  induction toks as [|t toks IH]; intros out nx.
+  - cbn [py_for split_tokens ref_sfinish fst snd]. destruct nx; cbn; [now rewrite app_nil_r|reflexivity].
+  - cbn [py_for split_tokens]. unfold ref_sstep at 1. cbn [fst snd].
+    destruct (py_str_contains t [HASH]) eqn:Eh.
+    + destruct nx as [|c nx']; cbn [str_eqb pend].
+      * destruct (py_link_fullmatch t) eqn:Em.
+        -- rewrite IH. cbn [pend]. destruct (split_tokens toks None); [now rewrite <- app_assoc|reflexivity].
+        -- reflexivity.
+      * destruct (py_link_fullmatch ((c :: nx') ++ [SPACE] ++ t)) eqn:Em.
+        -- rewrite IH. cbn [pend]. destruct (split_tokens toks None); [now rewrite <- app_assoc|reflexivity].
+        -- reflexivity.
+    + destruct nx as [|c nx']; cbn [str_eqb pend].
+      * rewrite IH. destruct t; reflexivity.
+      * reflexivity.
+Qed.
 
 Lemma tie_split_links s : split_links s = split_links_model s.
 Proof.
-  unfold split_links, split_links_model.
-  match goal with |- context [fold_left ?f _ _] => set (F := f) end.
-  assert (Herr : forall toks e, fold_left F toks (Err e) = Err e).
-  { induction toks as [|t toks IH]; intros e; cbn [fold_left]; [reflexivity|]. apply IH. }
-  assert (G : forall toks nx out,
-    match fold_left F toks (Ok (nx, out)) with
-    | Ok (nx', out') => match (if negb (str_eqb nx' []) then Err E_ValueError else Ok tt) with
-                        | Ok _ => Ok out' | Err e => Err e end
-    | Err e => Err e
-    end = match split_tokens toks (pend nx) with Ok l => Ok (out ++ l) | Err e => Err e end).
-  { induction toks as [|t toks IH]; intros nx out.
-    - cbn [fold_left split_tokens]. destruct nx; cbn; [now rewrite app_nil_r|reflexivity].
-    - cbn [fold_left split_tokens]. unfold F at 2. cbv beta iota.
-      destruct (py_str_contains t [35%N]) eqn:Eh.
-      + change [HASH] with [35%N]. rewrite Eh.
-        destruct nx as [|c nx'].
-        * cbn [str_eqb negb pend].
-          destruct (py_link_fullmatch t) eqn:Em; cbn [negb].
-          -- rewrite IH. cbn [pend]. destruct (split_tokens toks None); [now rewrite <- app_assoc|reflexivity].
-          -- now rewrite Herr.
-        * cbn [str_eqb negb pend]. change ([SPACE] ++ t) with ([32%N] ++ t).
-          destruct (py_link_fullmatch ((c :: nx') ++ [32%N] ++ t)) eqn:Em; cbn [negb].
-          -- rewrite IH. cbn [pend]. destruct (split_tokens toks None); [now rewrite <- app_assoc|reflexivity].
-          -- now rewrite Herr.
-      + change [HASH] with [35%N]. rewrite Eh.
-        destruct nx as [|c nx'].
-        * cbn [str_eqb negb pend]. rewrite IH. destruct t; reflexivity.
-        * cbn [str_eqb negb pend]. now rewrite Herr. }
-  specialize (G (py_split_ws s) [] []). cbn [pend app] in G.
-  etransitivity; [exact G|]. destruct (split_tokens (py_split_ws s) None); reflexivity.
+  unfold split_links. cbv zeta.
+  tie_for ref_sstep.
+  transitivity (ref_sfinish (py_for ref_sstep (py_split_ws s) ([], []))).
+  - destruct (py_for ref_sstep (py_split_ws s) ([], [])) as [[o n]|e]; unfold ref_sfinish; tie_crush.
+  - rewrite ref_sloop. unfold split_links_model. cbn [pend app].
+    destruct (split_tokens (py_split_ws s) None); reflexivity.
 Qed.
